@@ -331,6 +331,40 @@ theorem minmax_post (xs ys : List ℚ) (o : Interp) (xl xh v : ℚ) (m : Int)
       injection hd with hd
       left; rw [← hd, poly_prime wf]
 
+/-! ### Conjunction helpers -/
+
+/-- "The conjunction helpers built on it return the time at which the interpolated coordinate difference is zero":
+    if `planetary_conjunction` (coordinates in degrees) returns `(n0, dd)` then, with `ia` / `id` the interpolation
+    objects of the right-ascension / declination differences over the times `-h, …, h`, the time `n0` lies inside
+    the table, `|ia(n0)| ≤ TOL`, and `dd = id(n0)`. -/
+theorem conjunction_post (a1 d1 a2 d2 : List ℚ) (n0 dd : ℚ)
+    (h : planetary_conjunction a1 d1 a2 d2 = .ok (n0, dd)) :
+    ∃ (ns da de : List ℚ) (ia id : Interp),
+      GenQ.Interpolation.set TOL [.list ns, .list da] = .ok ia ∧ GenQ.Interpolation.set TOL [.list ns, .list de] = .ok id ∧
+      (xfirst ia ≤ n0 ∧ n0 ≤ xlast ia) ∧ (∃ y, call ia n0 = .ok y ∧ |y| ≤ TOL) ∧ call id n0 = .ok dd := by
+  unfold planetary_conjunction at h
+  split_ifs at h
+  all_goals
+    simp only [bind, Except.bind] at h
+    split at h
+    · cases h
+    · rename_i ia hia
+      split at h
+      · cases h
+      · rename_i id hid
+        split at h
+        · cases h
+        · rename_i r hr
+          split at h
+          · cases h
+          · rename_i v hv
+            simp only [pure, Except.pure] at h
+            injection h with h
+            injection h with e1 e2
+            subst e1; subst e2
+            exact ⟨_, _, _, ia, id, hia, hid, (root_post_default _ _ ia r 1000 hia hr).1,
+              (root_post_default _ _ ia r 1000 hia hr).2, hv⟩
+
 /-! ### Non-vacuity: concrete tables satisfy the hypotheses used above -/
 
 example : (GenQ.Interpolation.set TOL [.list [3, 1, 2], .list [9, 1, 4]]).map (fun o => (o.x, o.y, o.table))
@@ -343,6 +377,7 @@ example : (GenQ.Interpolation.set TOL [.list [0, 1, 2], .list [-1, 1, 3]] >>= fu
     = .ok (1 / 2) := by decide +kernel
 example : (GenQ.Interpolation.set TOL [.list [0, 1, 2], .list [3, 0, 1]] >>= fun o => minmax o (1 / 2) 2 5)
     = .ok (5 / 4) := by decide +kernel
+example : planetary_conjunction [10, 11, 12] [5, 6, 7] [12, 11, 10] [1, 1, 1] = .ok (0, 5) := by decide +kernel
 example : (GenQ.Interpolation.set TOL [.list [0, 1, 2], .list [3, 0, 1]] >>= fun o => call o 3)
     = .error .valueError := by decide +kernel
 
